@@ -6,9 +6,11 @@ From Rocfl Require Import Base.Bytes Model.Listing Model.KnownC19.
 Open Scope N_scope.
 
 (** * The glob subset the driver generates (globset 0.4, backslash_escape on,
-    literal_separator off; compiled to a (?-u) regex, so the unit is the BYTE):
-    [*] = any bytes but LF, [?] = one byte but LF, [\x] = the byte x, else literal. *)
-Definition not_lf (c : ascii) : bool := negb (code c =? 10).
+    literal_separator off; compiled to a (?-u) regex, so the unit is the BYTE,
+    built with dot_matches_new_line(true), globset lib.rs:259-261, so LF is a
+    byte like any other - observable since /repo 5a727de hands the matcher the
+    decoded id, which may contain LF):
+    [*] = any bytes, [?] = one byte, [\x] = the byte x, else literal. *)
 
 Fixpoint glob_match (g : bytes) (s : bytes) {struct g} : bool :=
   match g with
@@ -17,9 +19,9 @@ Fixpoint glob_match (g : bytes) (s : bytes) {struct g} : bool :=
       if code c =? 42 then
         (fix star (s : bytes) : bool :=
            glob_match g' s ||
-           match s with [] => false | x :: s' => not_lf x && star s' end) s
+           match s with [] => false | _ :: s' => star s' end) s
       else if code c =? 63 then
-        match s with [] => false | x :: s' => not_lf x && glob_match g' s' end
+        match s with [] => false | _ :: s' => glob_match g' s' end
       else if code c =? 92 then
         match g' with
         | [] => false
